@@ -134,6 +134,7 @@ def cover(F, res, cg):
     prows = {r["key"]: r["reason"] for r in table("e1_rows")["C13"]}
     analyze_reach = cg.reachable([ANALYZE_ROOT])
     reach, errsites = lowering_failure_sites(F, cg)
+    discharge.CURRENT_F = F
     _, n_fns, psites = e1.inventory(F, cg, [LOWER])
     res.count("functions in the lowering closure", n_fns)
     res.floor("functions in the lowering closure", n_fns, 250)
